@@ -518,6 +518,16 @@ def gen_cases(tier, sqrt_available, focus=None):
     if focus is not None:
         return focus_cases(focus, th, sqrt_available)
     cases = []
+    # the property-focused alphabets, here in "equal" mode (accepted as a constant expression AND bit-identical to run time):
+    # a subset in the quick tier, all of them (the complete asin/acos domain thinned to every 8th value) in the thorough tier
+    seen = set()
+    for f in (("C01", "C02", "C03", "C04", "C05", "C06", "C09", "C10", "C11", "C12", "C13", "C14", "C15", "C16", "C18", "C20") if th else ("C01", "C06", "C09", "C10", "C13", "C15", "C18")):
+        fc = [cs for cs in focus_cases(f, th, sqrt_available) if cs.mode == "oracle"]
+        if f == "C12":
+            fc = fc[::8]
+        for cs in fc:
+            if cs.expr not in seen:
+                seen.add(cs.expr); cs.mode = "equal"; cases.append(cs)
     su = s_set(3, 1) if th else s_set(2, 1)
     sb = s_set(1, 0) if th else small_set()
     sm = small_set()[::2] if not th else small_set()
